@@ -93,7 +93,9 @@ class Run(object):
                 # Tor answers the earlier service's unsubscription (and then whatever queued behind it)
                 self.hold_se = False
                 self.sim.release()
-            if a == "Reply":
+            if a == "Refuse":
+                self.sim.release(b"512 Bad arguments: refused\r\n" if self.kind == "eph" else b"513 Unacceptable option value: refused\r\n")
+            elif a == "Reply":
                 if self.kind == "fs":
                     with open(os.path.join(self.tmp, "hostname"), "w") as f:
                         f.write(IDS["me"] + ".onion\n")
